@@ -86,10 +86,12 @@ TNext ==
        [] E.ev = "Disk" ->
             LET disk == {<<s[1], s[2], s[3]>> : s \in SetOfSeq(E.stamps)} IN
             /\ (P01 => E.intact) /\ o.stopped
-            /\ (P01 \/ P17 \/ P18) => \A r \in SentRecs : r \in o.acked \/ r \in disk    \* C01 NoLoss (AllPersisted for C18)
+            \* C01 NoLoss (AllPersisted for C18). Written with sets, not as "\A r : acked \/ on disk": inside an action TLC takes
+            \* every true disjunct as a branch, 2^k identical successors for k records that are both acknowledged and on disk
+            /\ IF P01 \/ P17 \/ P18 THEN (SentRecs \ o.acked) \subseteq disk ELSE TRUE
             /\ o' = [o EXCEPT !.lastDisk = disk]
        [] E.ev = "Metrics" ->                                                  \* C19
-            /\ ~P19 \/ E.reloaded \/ MetricsBalance
+            /\ IF P19 /\ ~E.reloaded THEN MetricsBalance ELSE TRUE     \* (IF, not a disjunction: TLC would explore the disjuncts as branches)
             /\ UNCHANGED o
        [] E.ev = "MetricsOld" ->
             /\ E.inputPassed + E.inputDropped = E.lines /\ E.inputDropped = 0
@@ -103,7 +105,7 @@ TNext ==
             /\ E.forwarded >= E.acknowledged
             /\ E.persistentChunks = E.filesOnDisk
             /\ UNCHANGED o
-       [] E.ev = "Drained" -> ((P01 \/ P17) => SentRecs \subseteq o.acked) /\ UNCHANGED o       \* finally healthy: everything acknowledged
+       [] E.ev = "Drained" -> (IF P01 \/ P17 THEN SentRecs \subseteq o.acked ELSE TRUE) /\ UNCHANGED o       \* finally healthy: everything acknowledged
        [] E.ev = "RESET" -> o.stopped /\ o' = O0
        [] OTHER -> FALSE      \* HUNG, Panic, HarnessError, ...: no action explains them
 TSpec == TInit /\ [][TNext]_<<l, o>>
